@@ -7,7 +7,10 @@ CONSTANTS
   MaxLen = 2
   Fates = {"ok", "fatal", "retry1", "retryx"}
   MaxFail = 3
-  WorldTx = TRUE
+  WorldTx = {"W"}
+  EnsureTx = FALSE
+  ImplWR = "required"
+  CancelOn = FALSE
   RetryCount = 2
   MaxOps = 0
 INVARIANT NotAccepted
